@@ -431,6 +431,7 @@ func c14RouterCase(t *T) {
 			}
 		}
 		keys := cache.VerifKeys()
+		t.Tracef("%s %q resolved to %s: cache keys (most recent first) %v", method, path, rdesc(tb, want), keys)
 		if len(keys) == 0 || keys[0] != key {
 			sig := "resolved-entry-not-most-recent"
 			if indexOf(keys, key) < 0 {
